@@ -10,6 +10,7 @@ import (
 	"math/rand"
 	"strconv"
 	"strings"
+	"time"
 
 	"github.com/pinealctx/neptune/syncx/pipe"
 	"verifharness/vh"
@@ -324,6 +325,8 @@ func runPlan(e *vh.Env, p *plan, st *stats, tag string) bool {
 func main() {
 	vh.Main("c14", func(e *vh.Env) {
 		st := &stats{place: map[string]int{}}
+		rs := &raceStats{}
+		raceMs := map[string]int64{}
 		if e.Replay != "" {
 			switch {
 			case strings.HasPrefix(e.Replay, "slot:"):
@@ -338,6 +341,20 @@ func main() {
 				if bx >= 0 && bx < 4 {
 					runBurst(e, bs, bx, st)
 				}
+			case strings.HasPrefix(e.Replay, "stoprace:"):
+				f := strings.Split(e.Replay, ":")
+				bx, _ := strconv.Atoi(f[1])
+				bs, _ := strconv.ParseInt(f[2], 10, 64)
+				if bx >= 0 && bx < 4 {
+					// the interleaving is not forced: repeat the round until the screen flags it (bounded)
+					for i := 0; i < 2000; i++ {
+						c, flag, _, _, _ := stopRaceRound(bs, bx, false)
+						if flag || i == 1999 {
+							e.Emit(c)
+							break
+						}
+					}
+				}
 			case strings.HasPrefix(e.Replay, "plan:"):
 				p := &plan{}
 				if err := json.Unmarshal([]byte(e.Replay[5:]), p); err == nil {
@@ -349,7 +366,7 @@ func main() {
 		only := -1
 		if e.Search && e.Focus != "" {
 			for x, n := range xShort {
-				if strings.HasPrefix(strings.TrimPrefix(e.Focus, "burst-"), n) {
+				if strings.HasPrefix(strings.TrimPrefix(strings.TrimPrefix(e.Focus, "burst-"), "stop-vs-submit-"), n) {
 					only = x
 				}
 			}
@@ -378,6 +395,17 @@ func main() {
 			for i := 0; i < e.Scale(20, 200) && st.hangs < 3; i++ {
 				runBurst(e, e.Rnd.Int63(), x, st)
 			}
+			// Stop racing with the enqueues themselves
+			rounds := e.Scale(600, 4000)
+			if x == xRunner {
+				rounds = e.Scale(2000, 12000)
+			}
+			if only >= 0 {
+				rounds *= 3
+			}
+			t0 := time.Now()
+			stopRaceClass(e, x, rounds, e.Scale(15, 60), rs, &st.hangs)
+			raceMs[xShort[x]] = time.Since(t0).Milliseconds()
 		}
 		e.Meta["schedules"] = st.cases
 		e.Meta["hangs"] = st.hangs
@@ -385,5 +413,8 @@ func main() {
 		e.Meta["refused_closed"] = st.refusedClosed
 		e.Meta["skipped_by_runner"] = st.skipped
 		e.Meta["placement"] = st.place
+		e.Meta["stop_vs_submit"] = map[string]int{"rounds": rs.rounds, "emitted_to_coq": rs.emitted, "flagged_by_screen": rs.flagged,
+			"accepted": rs.accepted, "refused": rs.refused, "accepted_never_run": rs.lost}
+		e.Meta["stop_vs_submit_ms"] = raceMs
 	})
 }
